@@ -176,13 +176,13 @@ func ParseURI(raw string) (*URI, error) { //nolint:gocognit,cyclop
 	switch uri.Scheme {
 	case SchemeTypeSTUN:
 		qArgs, err := url.ParseQuery(rawParts.RawQuery)
-		if err != nil || len(qArgs) > 0 {
+		if err != nil || len(qArgs) > 0 || rawParts.RawQuery != "" {
 			return nil, ErrSTUNQuery
 		}
 		uri.Proto = ProtoTypeUDP
 	case SchemeTypeSTUNS:
 		qArgs, err := url.ParseQuery(rawParts.RawQuery)
-		if err != nil || len(qArgs) > 0 {
+		if err != nil || len(qArgs) > 0 || rawParts.RawQuery != "" {
 			return nil, ErrSTUNQuery
 		}
 		uri.Proto = ProtoTypeTCP
